@@ -45,6 +45,10 @@ def result_value(b):
     return t[1], ("cancelled" in t[2:])
 
 
+class TooManyHangs(Exception):
+    pass
+
+
 class Session:
     """One driver build + one model process shared by all histories of a check."""
     def __init__(self, chk, variant="hooks"):
@@ -52,11 +56,17 @@ class Session:
         self.drv = vlib.build_drivers(["engine_driver"], variant)["engine_driver"]
         self.model = E.Model("engine")
         self.n = 0
+        self.hangs = 0
 
     def run(self, lines, tag, timeout=120, keepdb=False):
         self.n += 1
         wd = os.path.join(TMP, self.chk.pid.lower(), "%s" % tag)
+        if self.hangs >= 3:
+            # the engine hangs again and again (already reported): do not spend the timeout on every remaining case
+            raise TooManyHangs()
         rc, out, err, sp, tp = E.run_impl(self.drv, lines, wd, timeout=timeout, keepdb=keepdb)
+        if rc == -9:
+            self.hangs += 1
         return dict(rc=rc, out=out, err=err, sp=sp, tp=tp, wd=wd)
 
     def model_run(self, r):
